@@ -107,3 +107,13 @@ def gensalt_cell(cid, entry, prefix, nrbytes, rbytes_null=False, count=(0, ULONG
         args.append({"ptr": "rbytes"})
     args += [{"root": 1}, {"ptr": "output"}, {"root": 2}]
     return {"id": cid, "entry": entry, "roots": roots, "regions": regions, "args": args}
+
+
+def cstr_region(name, data, tail=False, prov="setting", **kw):
+    r = {"name": name, "kind": "cstr", "bytes": hexs(data), "tail": bool(tail), "prov": prov}
+    r.update(kw)
+    return r
+
+
+def simple_cell(cid, entry, regions, args, roots=()):
+    return {"id": cid, "entry": entry, "roots": list(roots), "regions": regions, "args": args}
